@@ -108,6 +108,10 @@ func init() {
 		fr.i.ps.mapOrderSym = args[0].(bool)
 		return nil
 	}
+	ndHandlers["ndRace"] = func(fr *frame, args []value) value {
+		fr.i.raceOn(concStr(fr, args[0]))
+		return nil
+	}
 	ndHandlers["ndYield"] = func(fr *frame, args []value) value {
 		fr.i.yield()
 		return nil
